@@ -90,6 +90,13 @@ func c02Alphabet() (calls []e1.Call, batches map[string]c02Batch) {
 	add(e1.Call{Name: "d.c.FindOneAndUpdate({_id:40}, upsert $push fresh, after, projection rejected on the new version)", Do: func(w *world.World) string {
 		return obsSingle(w.C("d", "c").FindOneAndUpdate(w.Ctx, bD("_id", int32(40)), bD("$push", bD("fresh", int32(1))), options.FindOneAndUpdate().SetProjection(shapeProj).SetReturnDocument(options.After).SetUpsert(true)))
 	}})
+	// the same with a projection that, before it is rejected, cuts an array below an included document: the old version
+	// of the document (the stored one) is projected first
+	add(cInsertOne("d", "c", bD("_id", int32(50), "n", bD("t", bson.A{int32(1), int32(2), int32(3)}, "k", int32(1)))))
+	add(e1.Call{Name: "d.c.FindOneAndUpdate({_id:50}, $push fresh, after, projection cutting n.t below the included n, rejected on the new version)", Do: func(w *world.World) string {
+		proj := bD("n", int32(1), "n.t", bD("$slice", int32(1)), "fresh", bD("$elemMatch", bD("$bogus", int32(1))))
+		return obsSingle(w.C("d", "c").FindOneAndUpdate(w.Ctx, bD("_id", int32(50)), bD("$push", bD("fresh", int32(1))), options.FindOneAndUpdate().SetProjection(proj).SetReturnDocument(options.After)))
+	}})
 	add(cDelete("d", "c", true, bD("u", bD("$in", int32(1)))))
 	add(cDelete("d", "c", false, bD("_id", int32(2))))
 	// batches: the failing item at every position, and two failing items
